@@ -80,7 +80,8 @@ def case_strategy(draw, tier, wiring=False):
     mode = draw(st.sampled_from(['list', 'list', 'list', 'list', 'empty', 'absent']))
     allow = [] if mode != 'list' else draw(st.lists(pattern_for(pat_names), min_size=1, max_size=5))
     c.update({'metrics': metrics, 'mode': mode, 'allow': allow, 'via': draw(st.sampled_from(['env', 'yaml'])),
-              'env_ws': draw(st.sampled_from(['', ' ', ' , ', ',,']))})
+              'env_ws': draw(st.sampled_from(['', ' ', ' , ', ',,'])),
+              'yaml_shape': draw(st.sampled_from(['list', 'null', 'tilde', 'commented', 'missing']))})
     return c
 
 
@@ -152,7 +153,18 @@ def set_allowlist_env(case, tmpdir):
         import json
         path = os.path.join(tmpdir, 'safe.yaml')
         with open(path, 'w') as f:
-            f.write('safe_metrics: ' + json.dumps(case['allow']) + '\n')
+            f.write('openlineage:\n  heartbeat_interval: 10\n')
+            shape = case.get('yaml_shape', 'list') if not case['allow'] else 'list'
+            if shape == 'null':
+                f.write('safe_metrics:\n')                       # key present, no value
+            elif shape == 'tilde':
+                f.write('safe_metrics: ~\n')
+            elif shape == 'commented':
+                f.write('safe_metrics:\n#  - frames_processed\n#  - "*_fps"\n')  # every entry commented out
+            elif shape == 'missing':
+                pass                                             # no safe_metrics key at all
+            else:
+                f.write('safe_metrics: ' + json.dumps(case['allow']) + '\n')
         os.environ['OF_SAFE_METRICS_FILE'] = path
 
 
@@ -162,7 +174,7 @@ def judge(case, lineage, have_data, name_of=lambda n: n):
     exported = {}
     for facets in lineage.calls:
         exported.update(facets)
-    classes = [f'allowlist {case["mode"]}', f'via {case["via"]}']
+    classes = [f'allowlist {case["mode"]}', f'via {case["via"]}'] + ([f'yaml {case.get("yaml_shape")}'] if case['via'] == 'yaml' and not (case['allow'] if case['mode'] == 'list' else []) and case['mode'] != 'absent' else [])
     names = set(have_data)
     denied_seen = allowed_seen = False
     for key, val in exported.items():
